@@ -21,6 +21,8 @@ class ExprMixin:
         if isinstance(v, VNone):
             return False
         if isinstance(v, VOptInt):
+            if getattr(v, 'data', False):
+                return z3.And(z3.Not(v.isnone), self.uf('truthy', 'int', 'bool')(v.z))
             return z3.And(z3.Not(v.isnone), v.z != 0)
         if isinstance(v, VRef):
             if v.cls is not None and v.cls in self.repo.classes:
